@@ -324,8 +324,27 @@ func solveConj(vc *VC, js []struct {
 			return true
 		}
 		if raw == "sat" && !sliced {
-			return false
+			break
 		}
+	}
+	// obligations deferred to the thorough tier (the heavy cardinality preconditions of the lock operations) come in
+	// groups of a hundred and more; when the conjunction is not proved, the members of a LARGE all-deferred group are
+	// not solved one by one (that took hours): three sampled members are tried, the rest is reported undecided.
+	allDeferred := len(js) >= 40
+	for _, j := range js {
+		if !j.o.ThoroughOnly {
+			allDeferred = false
+		}
+	}
+	if allDeferred {
+		for k, j := range js {
+			if k%((len(js)+2)/3) == 0 {
+				results[j.idx] = solveOne(vc, j.o, j.idx, opts)
+				continue
+			}
+			results[j.idx] = &Result{VC: vc, Obl: j.o, Status: "undecided", Raw: "unknown", Solver: "not attempted (deferred group of " + fmt.Sprint(len(js)) + "; conjunction not proved)", PerSolver: map[string]string{}}
+		}
+		return true
 	}
 	return false
 }
